@@ -23,6 +23,12 @@ func c18Dispatch(c *Ctx) {
 	withTrace := r.Chance(2, 3)
 	ics := gen.ICSets[r.Intn(len(gen.ICSets))]
 	s := NewSys(ics, withTrace, false)
+	if r.Chance(1, 4) {
+		// the same router made by Group.New: a TRACE handler given to New overrides the group's, otherwise the group's is inherited
+		s = NewSysInGroup(ics, withTrace, false)
+		withTrace = true
+		c.Class("router_made_by_group_with_trace_option")
+	}
 	var use []string
 	pool := gen.Hostile.Table(r, r.Range(4, 16))
 	for i := r.Range(4, 20); i > 0; i-- {
